@@ -269,6 +269,8 @@ def sim_algos(simtype: str) -> list:
         return ["elliptic", "newmark", "midpoint", "hht", "euler_implicit"]
     if simtype == "WeakForms":
         return ["elliptic", "parabolic", "newmark", "midpoint", "euler_implicit"]
+    if simtype == "Beam":
+        return ["elliptic", "newmark", "midpoint", "hht", "euler_implicit"]
     return ["elliptic"]
 
 
